@@ -74,6 +74,16 @@ void do_layout(Toks &tk, std::ostream &os)
             os << id << " @shape_matrix ";
             print_shape(os, m);
             os << "\n";
+            // the two-index accessors of the transposed view of a C x R matrix (plain and const): (i,j) is the matrix's (j,i)
+            tensor::Matrix<double> mm(C, R);
+            tensor::Transpose<tensor::Matrix<double>> mT(mm);
+            const tensor::Transpose<tensor::Matrix<double>> &cmT = mT;
+            const double *b5 = mm.get_data().data();
+            os << id << " @transposed_matrix";
+            for (size_t j = 0; j < C; j++)
+                for (size_t i = 0; i < R; i++)
+                    os << " " << (&mT(i, j) - b5) << " " << (&cmT(i, j) - b5);
+            os << "\n";
         }
         os << id << " transposed ";
         for (size_t a = 0; a < T; a++)
